@@ -75,6 +75,8 @@ def _setup() -> None:
     L["1e200"] = sp.Float("1e200")
     q("Qtiny", sp.Float("1e-200") * U.meter, sp.Float("1e-200"), dims.L)
     q("Qhuge", sp.Float("1e200") * U.second, sp.Float("1e200"), dims.T)
+    # negative and below the smallest double: float() of its scale factor is -0.0
+    q("Qnegtiny", sp.Float("-1e-400") * U.second, sp.Float("-1e-400"), dims.T)
     x = SPSymbol("x", U.length)
     L["x"] = x
     f = SPFunction("f", [x], U.length)
@@ -83,7 +85,7 @@ def _setup() -> None:
 
 FULL = ["2", "-3", "1/2", "1.5", "I", "0", "oo", "-oo", "nan", "meter", "second", "kilogram",
     "gram", "kelvin", "newton", "joule", "radian", "electronvolt", "centimeter", "kilo", "milli",
-    "Q3m", "Q0len", "Q2s", "Q5", "Qm4m", "Q3kg", "x", "D", "1e-200", "Qtiny", "Qhuge", "hertz"]
+    "Q3m", "Q0len", "Q2s", "Q5", "Qm4m", "Q3kg", "x", "D", "1e-200", "Qtiny", "Qhuge", "hertz", "Qnegtiny"]
 MEDIUM = ["2", "-3", "0", "oo", "nan", "meter", "second", "kilogram", "newton", "radian", "kilo",
     "Q3m", "Q0len", "Q2s", "Qm4m", "x", "Qtiny", "Qhuge"]
 REDUCED = ["2", "0", "oo", "meter", "second", "kilo", "Q3m", "Q0len", "x"]
@@ -449,6 +451,34 @@ def history_work(chunk: list) -> dict:
     return res
 
 
+def abs_hook_cases() -> list[tuple[str, str]]:
+    """Abs of a library quantity is evaluated by the quantity's own hook while the expression is
+    built (the tree enumeration only sees what that hook returned): value |q|, dimension of q"""
+    from symplyphysics import Quantity
+    out = []
+    for q, (name, val, dim) in _REG.items():
+        for label, mk, want in (("Abs(q)", lambda q=q: sp.Abs(q), sp.Abs(val)), ("Abs(q)+Abs(q)",
+            lambda q=q: sp.Abs(q) + sp.Abs(q), 2 * sp.Abs(val)), ("Abs(-q)", lambda q=q: sp.Abs(-q),
+            sp.Abs(val))):
+            key = f"abs-hook:{label}:{name}"
+            try:
+                got = Quantity(mk())
+            except Exception as ex:  # pylint: disable=broad-except
+                out.append((key, f"raised {type(ex).__name__}: {short(ex)}"))
+                continue
+            gv = values.raw_to_si(got.scale_factor, dim) if not values.is_absorbing(
+                got.scale_factor) else None
+            if values.is_absorbing(sp.sympify(want)):
+                out.append((key, "" if gv is None else f"{label} of {name} has scale "
+                    f"{short(got.scale_factor)}, reference {want}"))
+                continue
+            ok = gv is not None and values.close(gv, values.mpc(want), 1e-12) and dims.same(
+                dims.of_dimension(got.dimension), dim)
+            out.append((key, "" if ok else f"{label} of {name} has scale {short(got.scale_factor)} "
+                f"and dimension {dims.of_dimension(got.dimension)}, reference {want} of {dim}"))
+    return out
+
+
 def main(run: Run) -> int:
     _setup()
     import time
@@ -471,6 +501,10 @@ def main(run: Run) -> int:
         r["n"] = 0
         run.absorb([r])
     run.note(unit_histories=len(hists), history_depth=depth)
+    for key, viol in abs_hook_cases():
+        run.case(key, outcome="abs-hook")
+        if viol:
+            run.violation(key, viol, {"abs_hook": key})
     run.note(bound=("<= 3 internal nodes (third level over the reduced menu)" if run.thorough else
         "<= 2 internal nodes"))
     return run.finish(
@@ -490,6 +524,8 @@ def replay(case: dict) -> list[str]:
     def tup(x: Any) -> Any:
         return tuple(tup(i) for i in x) if isinstance(x, list) else x
 
+    if "abs_hook" in case:
+        return [f"{k}: {v}" for k, v in abs_hook_cases() if v and k == case["abs_hook"]]
     if "history" in case:
         return [f"{k}: {v}" for k, v in history_case(tuple(case["history"])) if v and k ==
             case["key"]]
